@@ -432,7 +432,10 @@ uint32_t IPv6::calculate_headers_size() const {
 }
 
 void IPv6::write_header(const ext_header& header, OutputMemoryStream& stream) {
-    const uint8_t length = header.length_field() / 8;
+    // The length field counts 8 octet units, not including the first 8 octets. Use 
+    // the size that is actually written (type + length + data + padding)
+    const uint32_t written_size = static_cast<uint32_t>(header.data_size()) + sizeof(uint8_t) * 2 + get_padding_size(header);
+    const uint8_t length = static_cast<uint8_t>(written_size / 8 - 1);
     stream.write(header.option());
     stream.write(length);
     stream.write(header.data_ptr(), header.data_size());
